@@ -102,6 +102,7 @@ def run(prog: Program, rep: Report, tier: str):
     slots = [e for e in cls_dict_sets if e[2] == ("const", "__slots__")]
     fields_call = ("call", ("ref", "dataclasses.fields"), (CLS,), ())
     ok_slots = bool(slots)
+    own_excluded = True
     for e in slots:
         v = e[3]
         comps = [s for s in T.walk(v) if s[0] == "comp"]
@@ -115,6 +116,11 @@ def run(prog: Program, rep: Report, tier: str):
         inherited_ok = any(cd[0] == "cmp" and cd[1] == "notin" and T.contains(cd[3], lambda s: T.is_call_to(s, "builtins.getattr") and len(s[2]) >= 2 and s[2][1] == ("const", "__slots__")) for cd in c[4])
         all_ancestors = any(T.contains(cd, lambda s: (s[0] == "call" and s[1][0] == "attr" and s[1][1] == CLS and s[1][2] == "mro") or s == ("attr", CLS, "__mro__")) for cd in c[4])
         ok_slots = ok_slots and from_fields and filt and inherited_ok and all_ancestors
+        # ... of every *proper* ancestor: the class's own __slots__ (an already slotted dataclass) are not "inherited"
+        is_mro = lambda s: (s[0] == "call" and s[1][0] == "attr" and s[1][1] == CLS and s[1][2] == "mro") or s == ("attr", CLS, "__mro__")  # noqa: E731
+        sliced = any(T.contains(cd, lambda s: s[0] == "sub" and is_mro(s[1]) and s[2][0] == "slice" and s[2][1] == ("const", 1)) for cd in c[4])
+        unsliced = any(T.contains(T.rewrite(cd, lambda s: ("const", "<proper-ancestors>") if (s[0] == "sub" and is_mro(s[1]) and s[2][0] == "slice" and s[2][1] == ("const", 1)) else None), is_mro) for cd in c[4])
+        own_excluded = own_excluded and sliced and not unsliced
         # nothing reaches the tuple unfiltered: no other element next to the filtered comprehension, and the sequence
         # it is built from is not extended afterwards
         unfiltered = [x for x in (v[1] if v[0] in ("tuple", "list") else ()) if not (x[0] == "star" and x[1] == c) and x != c]
@@ -122,6 +128,7 @@ def run(prog: Program, rep: Report, tier: str):
         if unfiltered or grown:
             ok_slots = False
     rep.check(ok_slots, "R19.2", q, f.loc, "__slots__ are the dataclass field names not already slotted by a base", "__slots__ are not `fields(cls)` names minus the union of the __slots__ of *every* ancestor (cls.mro()): a slot re-declared from a grandparent is duplicated, or type() raises", detail="slots")
+    rep.check(own_excluded and bool(slots), "R19.2", q, f.loc, "only proper ancestors count as providers of inherited slots (mro()[1:])", "the class's own __slots__ are counted as inherited (the whole mro(), the class included, is searched): for a dataclass that is already slotted -- dataclass(slots=True), or slotted() applied twice -- no field gets a slot and no instance can be built (AttributeError: object has no attribute 'x')", detail="slots-own")
     # names come from f.name of dataclasses.fields(cls)
     fn = None
     for e in p.events:
@@ -130,16 +137,23 @@ def run(prog: Program, rep: Report, tier: str):
     names_ok = fn is not None and T.contains(fn, lambda s: s == ("attr", ("elem", fields_call), "name"))
     rep.check(names_ok, "R19.2", q, f.loc, "field names are taken from dataclasses.fields(cls)", "field names are not taken from dataclasses.fields(cls)", detail="field-names")
     # flags
-    for flag, key in (("dict", "__dict__"), ("weakref", "__weakref__")):
-        with_flag = without_flag = None
+    for flag, key, layout in (("dict", "__dict__", "__dictoffset__"), ("weakref", "__weakref__", "__weakrefoffset__")):
+        with_flag = None
+        without_flag = False
+        layout_aware = None
         for pth in rets:
-            pol = [po for g, po in pth.guards() if g == ("param", flag)]
+            gs = pth.guards()
+            requested = any(g == ("param", flag) and po for g, po in gs)
             has = any(e[0] == "setitem" and e[2] == ("const", key) and not is_cls_dict(e[1]) and T.contains(e[1], lambda s: s == fields_call) for e in pth.events)
-            if pol == [True]:
-                with_flag = has if with_flag is None else (with_flag and has)
-            elif pol == [False]:
-                without_flag = has if without_flag is None else (without_flag or has)
-        rep.check(with_flag is True and without_flag is False, "R19.2", q, f.loc, f"'{key}' slot is added exactly when `{flag}` is requested", f"'{key}' slot is not tied to the `{flag}` flag (added with flag: {with_flag}, without: {without_flag})", detail=key)
+            if has and not requested:
+                without_flag = True
+            if has:
+                with_flag = True
+                # the bases' instance layout is consulted: the offset attribute, or a search for a base without __slots__
+                aware = any(T.contains(g, lambda s: (s[0] == "attr" and s[2] == layout) or (s[0] == "cmp" and s[1] in ("in", "notin") and s[2] == ("const", "__slots__"))) for g, _po in gs)
+                layout_aware = aware if layout_aware is None else (layout_aware and aware)
+        rep.check(with_flag is True and without_flag is False, "R19.2", q, f.loc, f"'{key}' slot is added only when `{flag}` is requested", f"'{key}' slot is not tied to the `{flag}` flag (added with flag: {with_flag}, without: {without_flag})", detail=key)
+        rep.check(bool(layout_aware), "R19.2", q, f.loc, f"'{key}' is not asked for again when a base already provides it ({layout} of the bases is consulted)", f"the '{key}' slot is requested without looking at the bases: a dataclass deriving from a base without __slots__ already has a {key}, and type() raises TypeError ('{key} slot disallowed: we already got one') -- with the default flags slotted() raises for every subclass of an unslotted dataclass", detail=f"{key}-inherited")
     # field defaults removed from class dict
     popped = False
     for pth in rets:
@@ -152,6 +166,22 @@ def run(prog: Program, rep: Report, tier: str):
                     if not filtered:
                         popped = True
     rep.check(popped, "R19.2", q, f.loc, "every field name is removed from the class dict (defaults would clash with slots)", "not every field name is removed from the class dict (only the new slots, or none): a defaulted field makes type() raise 'conflicts with class variable', and a re-declared inherited field keeps a class attribute that shadows the base's slot", detail="pop-fields")
+    # the original class's own __dict__ / __weakref__ descriptors never travel into the copy of its namespace: they are
+    # getset descriptors bound to the *old* type (hasattr(inst, '__dict__') would raise TypeError instead of answering False)
+    for key in ("__dict__", "__weakref__"):
+        on_all = bool(rets)
+        for pth in rets:
+            removed = False
+            for e in pth.events:
+                if e[0] == "eval" and e[1][0] == "call" and e[1][1][0] == "attr" and e[1][1][2] == "pop" and e[1][2][:1] == (("const", key),) and is_cls_dict(e[1][1][1]):
+                    removed = True
+                if e[0] == "delete" and e[1][0] == "sub" and e[1][2] == ("const", key) and is_cls_dict(e[1][1]):
+                    removed = True
+                if e[0] == "assign" and e[2][0] == "comp" and e[2][1] == "dict" and any(T.contains(cd, lambda y: y == ("const", key)) for cd in e[2][4]):
+                    removed = True
+            if not removed:
+                on_all = False
+        rep.check(on_all, "R19.2", q, f.loc, f"the original class's '{key}' descriptor is removed from the copied namespace on every path", f"the copied class namespace keeps the original class's '{key}' descriptor when the flag is off (it is only popped as a field name when the flag is on): the descriptor belongs to the old type, so hasattr(inst, '{key}') raises TypeError instead of returning False, inspect.getmembers(inst) fails", detail=f"descriptor-{key}")
     # R19.3
     new_cls = None
     built = {}
@@ -241,6 +271,28 @@ def run(prog: Program, rep: Report, tier: str):
         setters = [c for hp in hps for c in hp.calls() if T.refname(c[1]) in ("builtins.object.__setattr__", "builtins.setattr") or (c[1][0] == "attr" and c[1][2] == "__setattr__")]
         good = bool(setters) and all(T.refname(c[1]) == "builtins.object.__setattr__" and c[2][:1] == (("param", hf.params[0]),) for c in setters)
         rep.check(good, "R19.4", hf.qualname, hf.loc, "the pickle hook restores slots with object.__setattr__ (frozen classes reject every other setter)", "the pickle hook does not restore slots through object.__setattr__(self, …): for a frozen subclass the inherited frozen __setattr__ raises on copy / pickle", detail="hook-setter")
+        # the default state of an instance with slots is the pair (instance __dict__ or None, {slot: value}): both halves are
+        # restored (a slotted class may still carry a __dict__ -- requested with dict=True or inherited from an unslotted base)
+        st = ("param", hf.params[1]) if len(hf.params) > 1 else None
+        whole = False
+        parts = set()
+        for hp in hps:
+            for c in hp.calls():
+                if not (T.refname(c[1]) in ("builtins.object.__setattr__", "builtins.setattr") or (c[1][0] == "attr" and c[1][2] in ("__setattr__", "update"))):
+                    continue
+                for x in T.walk(c):
+                    if x[0] == "elem" and T.contains(x[1], lambda y: y == st) and not T.contains(x[1], lambda y: y[0] in ("unpack", "sub") and y[1] == st):
+                        whole = True
+                    if x[0] == "unpack" and x[1] == st:
+                        parts.add(x[2])
+                    if x[0] == "sub" and x[1] == st and x[2][0] == "const":
+                        parts.add(x[2][1])
+        if st is not None and setters:
+            rep.check(whole or {0, 1} <= parts or {0, -1} <= parts, "R19.4", hf.qualname, hf.loc, "the pickle hook restores both halves of the state pair (instance dict and slots)", f"the pickle hook restores only part {sorted(parts)} of the (dict, slots) state pair: a frozen slotted instance that also has a __dict__ (dict=True, or an unslotted base) loses its non-field attributes on copy / deepcopy / pickle", detail="hook-state")
+        if st is not None and setters:
+            # object.__getstate__ gives the pair only when some slot holds a value; otherwise the state is the bare instance dict
+            shape = any(T.is_call_to(g, "builtins.isinstance") and g[2][:1] == (st,) for hp in hps for g, _po in hp.guards()) or any(T.contains(g, lambda y: y in (("attr", st, "__class__"), ("call", ("ref", "builtins.type"), (st,), ()))) for hp in hps for g, _po in hp.guards())
+            rep.check(shape, "R19.4", hf.qualname, hf.loc, "the pickle hook tells the (dict, slots) pair from a bare instance dict", "the pickle hook assumes the state is always the (dict, slots) pair: when no slot holds a value (a frozen dataclass without fields, dict=True) the default state is the instance __dict__ itself, iterating it yields attribute *names* and copy / pickle raise AttributeError: 'str' object has no attribute 'items'", detail="hook-state-shape")
     except AnalysisError:
         rep.undecided("R19.4", q, f.loc, "pickle hook helper not found", detail="hook-setter")
     # inherited user hooks count as user hooks: the namespace of the class alone does not show them
